@@ -7,7 +7,7 @@ import random
 from ..engine import live, monitors, specgen, suite
 from ..runner import Env, Outcome, Violation
 
-THEOREMS = ["C12_roundtrip_stable", "C12_resumed_step", "C12_resumed_slots_ok", "C12_queued_keep_retry_state",
+THEOREMS = ["C12_roundtrip_stable", "C12_resumed_step", "C12_resumed_slots_ok", "C12_queued_keep_retry_state", "C12_waiting_keep_retry_state",
             "C12_refuted_inprogress_budget", "C12_inprogress_budget_partial", "C12_refuted_scheduled_retry"]
 EXPLANATION = (
     "Lean (model Serial = to_serialized -> JSON -> from_serialized): the serialised form is stable after one round trip for every "
